@@ -241,16 +241,57 @@ def rule_reserve_and_codec(chk):
             good="join %r / split %r, int per non-empty segment" % (jsep, jsep), fail="; ".join(problems))
 
 
+def _pc_callable(chk):
+    """(the callable preserve_context returns, the nested function that calls f -- the same one, or one it delegates to through
+    `<copied context>.run(<helper>, *args, **kwargs)` --, the returned callable's flow graph, the nodes in it where f gets called)"""
+    ctx = chk.ctx
+    pc = ctx.func("_action", "preserve_context")
+    fparam = pc.params[0]
+    inner = [g for g in pc.nested.values() if not g.is_lambda]
+    chk.need(inner, "preserve_context: inner callable not found")
+    if len(inner) == 1:
+        g = inner[0]
+        cfg = ctx.cfg(g)
+        fcalls = [(n, c) for n in cfg.live for c, m in calls_in_node(n) if isinstance(c.func, ast.Name) and c.func.id == fparam]
+        chk.need(fcalls, "preserve_context callable no longer calls f")
+        return g, g, cfg, fcalls
+    chk.need(len(inner) == 2, "preserve_context: more than two nested functions (not modelled)")
+    rets = [X.inline(pc, r.value) for r in iter_own_nodes(pc.node) if isinstance(r, ast.Return) and r.value is not None]
+    returned = [g for g in inner if any(isinstance(v, ast.Name) and v.id == g.name for v in rets)]
+    chk.need(len(returned) == 1, "preserve_context: which nested function is returned is not clear (not modelled)")
+    g = returned[0]
+    helper = [h for h in inner if h is not g][0]
+    cfg = ctx.cfg(g)
+    deleg = []
+    for n in cfg.live:
+        for c, m in calls_in_node(n):
+            if isinstance(c.func, ast.Attribute) and c.func.attr == "run" and c.args and isinstance(c.args[0], ast.Name) and c.args[0].id == helper.name:
+                base = X.inline(pc, c.func.value)
+                if isinstance(c.func.value, ast.Name):
+                    vals_ = [v for v in assigned_values(pc, c.func.value.id) if v is not None]
+                    base = vals_[0] if len(vals_) == 1 else base
+                if isinstance(base, ast.Call) and unparse(base.func).split(".")[-1] == "copy_context":
+                    deleg.append((n, c))
+    chk.need(deleg, "preserve_context: the returned callable does not delegate to the other nested function through <copied context>.run (not modelled)")
+    hf = [c for n in ctx.cfg(helper).live for c, m in calls_in_node(n) if isinstance(c.func, ast.Name) and c.func.id == fparam]
+    chk.need(hf, "preserve_context: the helper run in the copied context does not call f")
+    # a guard that sits in the helper is reached only after Context.run has been entered: an overlapping second call fails there first
+    hguards = [t for t in ctx.cfg(helper).live if t.kind == "test" and any(isinstance(x, ast.Call) and isinstance(x.func, ast.Attribute) and x.func.attr == "acquire" for x in ast.walk(t.exprs[0]))]
+    gguards = [t for t in cfg.live if t.kind == "test" and any(isinstance(x, ast.Call) and isinstance(x.func, ast.Attribute) and x.func.attr == "acquire" for x in ast.walk(t.exprs[0]))]
+    if hguards and not gguards:
+        chk.bad("C06.once", "preserve_context:single-use-guard-before-the-context-is-entered", chk.where(helper, hguards[0].lineno),
+                "the single-use guard sits inside %s, which the returned callable runs through `%s`: every invocation first enters the ONE Context copied by preserve_context, and a Context "
+                "that is already entered (an overlapping or re-entrant second call) makes Context.run raise RuntimeError -- the second caller never reaches the guard and gets RuntimeError instead "
+                "of TooManyCalls" % (helper.name, unparse(deleg[0][1])[:50]))
+        raise AnalysisError("preserve_context: guard inside the delegated helper")
+    return g, helper, cfg, deleg
+
+
 def rule_once(chk):
     ctx = chk.ctx
     pc = ctx.func("_action", "preserve_context")
-    inner = [g for g in pc.nested.values() if not g.is_lambda]
-    chk.need(len(inner) == 1, "preserve_context: inner callable not found")
-    g = inner[0]
-    cfg = ctx.cfg(g)
+    g, helper, cfg, fcalls = _pc_callable(chk)
     fparam = pc.params[0]
-    fcalls = [(n, c) for n in cfg.live for c, m in calls_in_node(n) if isinstance(c.func, ast.Name) and c.func.id == fparam]
-    chk.need(fcalls, "preserve_context callable no longer calls f")
     where = chk.where(g)
     # candidate guards: tests dominating the call of f
     ok = False
@@ -331,6 +372,8 @@ def rule_once(chk):
     ct_ = ctx.func("_action", "Action.continue_task")
     enters_ = [w_ for w_ in cfg.live if w_.kind == "with_enter" and isinstance(w_.info["item"].context_expr, ast.Call) and ct_ in ctx.targets(g, w_.info["item"].context_expr)]
     enters_ += [n_ for n_ in cfg.live if n_.kind != "with_enter" for c_, m_ in calls_in_node(n_) if ct_ in ctx.targets(g, c_)]
+    if helper is not g:
+        enters_ += [n_ for n_, c_ in fcalls]   # the task is continued inside the helper the callable delegates to
     guards_ = [t for t in cfg.live if t.kind == "test" and any(isinstance(x, ast.Call) and isinstance(x.func, ast.Attribute) and x.func.attr == "acquire" for x in ast.walk(t.exprs[0]))]
     guards_ += [t for t in cfg.live if t.kind == "test" and any(cfg.edge_dominates(t, l, n_) for n_, c_ in fcalls for l in ("true", "false")) and t not in guards_]
     okorder = bool(enters_) and bool(guards_) and all(cfg.precedes(guards_, [e_])[0] for e_ in enters_)
@@ -366,8 +409,20 @@ def rule_once(chk):
 def rule_transparent(chk):
     ctx = chk.ctx
     pc = ctx.func("_action", "preserve_context")
-    g = [x for x in pc.nested.values() if not x.is_lambda][0]
+    outer_g, g, outer_cfg, deleg_ = _pc_callable(chk)
     cfg = ctx.cfg(g)
+    if outer_g is not g:
+        # the returned callable hands its arguments on unchanged and returns what the helper returns
+        bad_ = []
+        for r_ in common.returns_of(outer_cfg):
+            v_ = r_.ast.value
+            okd_ = any(v_ is c_ for n_, c_ in deleg_) and len(v_.args) == 2 and isinstance(v_.args[1], ast.Starred) and outer_g.node.args.vararg is not None \
+                and unparse(v_.args[1].value) == outer_g.node.args.vararg.arg and len(v_.keywords) == 1 and v_.keywords[0].arg is None and outer_g.node.args.kwarg is not None \
+                and unparse(v_.keywords[0].value) == outer_g.node.args.kwarg.arg
+            if not okd_:
+                bad_.append(unparse(v_)[:50] if v_ is not None else "None")
+        chk.req(not bad_, "C06.transparent", "preserve_context:delegation-is-transparent", chk.where(outer_g), good="return <context>.run(<helper>, *args, **kwargs)",
+                fail="the returned callable returns %s, not the helper's result for the unchanged arguments" % bad_)
     ca = ctx.func("_action", "current_action")
     ct = ctx.func("_action", "Action.continue_task")
     sti = ctx.func("_action", "Action.serialize_task_id")
